@@ -20,7 +20,7 @@ func main() {
 		replay(run)
 		return
 	}
-	if !run.Fork(16) {
+	if !run.Fork(16, "GOMAXPROCS=1") {
 		if i, _, _ := run.Worker(); i == 0 {
 			runSequential(run)
 		}
